@@ -340,7 +340,7 @@ VMLoop:
 			if bp == 0 {
 				bp = vm.curFrame.fn.NumLocals + 1
 			}
-			if numRet == 1 {
+			if numRet == 1 && !vm.curFrame.discardRet {
 				vm.stack[bp-1] = vm.stack[vm.sp-1]
 			} else {
 				vm.stack[bp-1] = Undefined
@@ -764,6 +764,7 @@ func (vm *VM) initCurrentFrame() {
 
 	vm.curFrame.errHandlers = nil
 	vm.curFrame.basePointer = 0
+	vm.curFrame.discardRet = false
 }
 
 func (vm *VM) clearCurrentFrame() {
@@ -1129,6 +1130,11 @@ func (vm *VM) xOpCallCompiled(cfunc *CompiledFunction, numArgs, flags int) error
 
 		if nextOp == OpReturn ||
 			(nextOp == OpPop && OpReturn == vm.curInsts[vm.ip+2+2]) {
+			if nextOp == OpPop {
+				// the result of this call is discarded by the caller, which then
+				// returns undefined; remember it because the frame is re-used.
+				vm.curFrame.discardRet = true
+			}
 			curBp := vm.curFrame.basePointer
 			copy(vm.stack[curBp:curBp+numLocals], vm.stack[basePointer:])
 			newSp := vm.sp - numArgs - 1
@@ -1153,6 +1159,7 @@ func (vm *VM) xOpCallCompiled(cfunc *CompiledFunction, numArgs, flags int) error
 	frame.freeVars = cfunc.Free
 	frame.errHandlers = nil
 	frame.basePointer = basePointer
+	frame.discardRet = false
 
 	vm.curFrame.ip = vm.ip + 2
 	vm.curInsts = cfunc.Instructions
@@ -1493,6 +1500,9 @@ type frame struct {
 	ip          int
 	basePointer int
 	errHandlers *errHandlers
+	// discardRet is set when a tail call whose value the caller discards
+	// re-used this frame, so that the frame finally returns undefined.
+	discardRet bool
 }
 
 func getFrameSourcePos(frame *frame) parser.Pos {
